@@ -35,7 +35,7 @@ ENGINES = {
 PROP = {
     "engines": ["vacuum"],
     "lean_modules": ["AxVerif.Model.Db", "AxVerif.Model.Vacuum", "AxVerif.Lemmas.Db", "AxVerif.Lemmas.DbSim", "AxVerif.Lemmas.DbHist",
-                     "AxVerif.Lemmas.Vacuum", "AxVerif.Driver.Hist", "AxVerif.Driver.Vacuum"],
+                     "AxVerif.Lemmas.Vacuum", "AxVerif.Lemmas.VacuumGrowth", "AxVerif.Driver.Hist", "AxVerif.Driver.Vacuum"],
     "rule": "one case = schema + committed initial rows + a multi-session history (as engine hist: sessions stepped from one thread) "
             "with VACUUM (bare or checked by all-table SELECTs before/after) and reopen at arbitrary places, any number of times, "
             "followed by reads from fresh autocommit statements, a session opened after the last VACUUM (reads twice, writes, "
@@ -54,12 +54,17 @@ PROP = {
         "the catalog is static in the model: CREATE happens in the setup, DROP TABLE only for the side table tmpzz whose existence the driver tracks by hand",
         "kept out of generation (findings of C03/C04/C07): two open transactions writing one row, statements failing after their first row inside a session, reinsertion of a deleted unique key, UPDATE on a table with a unique index",
     ],
-    "partial": "vacuum_idempotent: observations are proved idempotent and the size is proved to reach its fixed point (one version per row, no marks) "
-               "after the second VACUUM; the design's `size (vacuum (vacuum db)) = size (vacuum db)` is kept as vacuum_idempotent_statement and is "
-               "FALSE of the code-mirroring model (vacuum_size_not_idempotent_witness: vaccum_with keeps deltas whose xmin equals the horizon). "
-               "bounded_growth is proved for cycles of one autocommit statement followed by VACUUM (any statement, any number of cycles, from any "
-               "reachable state): exactly one stored version per surviving row; for arbitrary work between two VACUUMs the general bound "
-               "size_after_vacuum_le (rows + versions stamped by the last committed transaction) is proved instead.",
+    "partial": "vacuum_idempotent_partial: observations are idempotent, a second VACUUM drops no row, never stores more, and leaves exactly "
+               "one version per row and no mark, after which the size is a fixed point; the design's `size (vacuum (vacuum db)) = size (vacuum db)` "
+               "is kept as vacuum_idempotent_statement and is FALSE of the code-mirroring model (vacuum_size_not_idempotent_witness: vaccum_with "
+               "keeps the deltas whose xmin equals the horizon). bounded_growth is proved for cycles of ONE autocommit statement (any statement, "
+               "failing ones included) followed by VACUUM, any number of cycles, starting after any history + one VACUUM: size = number of rows; "
+               "for arbitrary work between two VACUUMs a bound by a function of the row count alone (bounded_growth_statement) does not hold for a "
+               "single VACUUM and is not claimed; the general bound size_after_vacuum_le (rows + versions the last committed transaction stacked "
+               "below the heads) and no_chain_survives are proved instead. forget_aborted_unobservable is proved for the transaction beginning right "
+               "after the VACUUM, not as a simulation for all later histories (the relabelled table breaks the invariant the simulation uses). "
+               "vacuum_removes_only_unneeded is stated for the snapshot of every transaction that begins after the VACUUM and after any further "
+               "history; snapshots of sessions open across the VACUUM do not exist in the specification (vacuum_ends_open_sessions).",
     "trusted": ["one history is executed from a single thread: the interleaving is exactly the op order of the case line",
                 "Driver/Vacuum.lean's bookkeeping for the side table tmpzz and for the `killed` session names (unverified glue, 40 lines)"],
 }
